@@ -110,6 +110,25 @@ def is_channel(mm):
         return True
 
 
+def check_and_identify(mm):
+    """Requirement function for the Young's modulus
+
+    Returns `False` if the measurement was not performed in the channel
+    (see :func:`is_channel`). Otherwise, returns the values of all
+    optional configuration keys that :func:`compute_emodulus` makes use
+    of. These are not necessarily listed in `req_config` of each case,
+    but they must be part of the ancillary feature hash, so that the
+    cached data are recomputed when one of them is set or changed.
+    """
+    if not is_channel(mm):
+        return False
+    calccfg = mm.config["calculation"]
+    return [(key, calccfg.get(key)) for key in ["emodulus medium",
+                                                "emodulus temperature",
+                                                "emodulus viscosity",
+                                                "emodulus viscosity model"]]
+
+
 def register():
     # Please note that registering these things is a delicate business,
     # because the priority has to be chosen carefully.
@@ -131,7 +150,7 @@ def register():
                                      ["imaging", ["pixel size"]],
                                      ["setup", ["flow rate", "channel width"]]
                                      ],
-                         req_func=is_channel,
+                         req_func=check_and_identify,
                          priority=4 + pr)
         AncillaryFeature(feature_name="emodulus",
                          data="case A",
@@ -143,7 +162,7 @@ def register():
                                      ["imaging", ["pixel size"]],
                                      ["setup", ["flow rate", "channel width"]]
                                      ],
-                         req_func=is_channel,
+                         req_func=check_and_identify,
                          priority=0 + pr)
 
     AncillaryFeature(feature_name="emodulus",
@@ -156,5 +175,5 @@ def register():
                                  ["imaging", ["pixel size"]],
                                  ["setup", ["flow rate", "channel width"]]
                                  ],
-                     req_func=is_channel,
+                     req_func=check_and_identify,
                      priority=2)
